@@ -34,6 +34,19 @@ CHECKS = {
         'against scipy.special.erf on a grid each run. NaN-freedom at IEEE overflow scale is tested only.',
    technique='Lean 4 proof (real analysis of erf, list induction) + differential correspondence with the Float instance',
    design='5/C02'),
+ 'C05': dict(
+   text='Theorems over the reals, for every pair of states (interior or boundary), every positive width, any non-negative sampling prior and all '
+        'finite log-likelihoods: the truncated-Gaussian proposal density is strictly positive; acceptance probabilities lie in [0,1]; detailed '
+        'balance pi(x)e^L q(x\'|x)a(x->x\') = pi(x\')e^L\' q(x|x\')a(x\'->x) for a shift, for joint multi-event shifts (any number of events) '
+        'and for dimension jumps with model priors p, 1-p and the coded balancing density; a zero-likelihood proposal has acceptance 0, a '
+        'zero-likelihood start accepts with probability 1; the strict decision u < a never accepts a=0 and always accepts a=1. Tie: '
+        'transition_pdf, prior, jump_params, acceptance (4 classes, 1..3 events) and _acceptance_check with a forced uniform draw vs the '
+        'executable model; oracle = both sides of the balance identity on the real code. Open finding: the coded balancing density is not '
+        'normalised over the source-type box (KNOWN_FINDINGS).',
+   note=TB + 'The strike kernel (wrapped normal) is symmetric and omitted as in the code. scipy norm/beta densities are modelled by closed forms (checked each run). '
+        'That jump_params(x) equals the density of the actual draw is NOT proved (and numerically false by 2%: open finding).',
+   technique='Lean 4 proof (min-ratio swap lemma, positivity of truncated Gaussians via strict monotonicity of erf) + differential correspondence',
+   design='5/C05'),
  'C09': dict(
    text='Refinement proof for every history of batches (any sizes incl. 0, exact fits and several increments): the concrete store '
         '(pre-allocated array, fill index, growth loop) represents exactly the non-zero candidates of all batches in order, each with its '
@@ -92,7 +105,18 @@ CHECKS = {
         'generated files (LF/CRLF, clusters that merge, patched RNG for sub-sampling) vs the executable model.',
    note=TB + 'Lines reach the model already classified by token count; float() of tokens and universal-newline reading are trusted. All blocks list the same number of stations.',
    technique='Lean 4 proof (fold invariants, list induction) + differential correspondence on real files',
-   design='5/C18'),
+   design='5/C18'), 'C17': dict(
+   text='Theorems: binary format — for any list of well-formed records (0..n samples, converted or not) read(concat(write r)) returns the same '
+        'records (tensors, probabilities, log-probabilities, counts, converted parameters; sqrt2 scaling an exact inverse pair over the reals), '
+        'reading one record leaves the rest of the stream untouched, the header carries the sample count. CSV — over classified lines: every '
+        'station row is extracted with the column indices of the header in force, row for row; a UID line overrides the default; several types '
+        'with distinct keys keep their own rows in file order; a row depends only on the fields the header points at (column-order invariance); '
+        'one event per block. hyp — every phase line between PHASE and END_PHASE yields its pick, in order, and lines outside none. Tie: '
+        'parse_csv, csv2inv (pickle round trip), parse_hyp, _convert_mt_space_to_struct (byte-for-byte via the documented struct layout) and '
+        'read_binary_output on generated files vs the executable model.',
+   note=TB + 'String-level glue (comma/whitespace splitting, lower-casing, UID extraction) is executable model code covered only by the correspondence run; struct/pickle byte level trusted.',
+   technique='Lean 4 proof (stream-parser round trip by induction, fold invariants) + differential correspondence on real files',
+   design='5/C17'),
 }
 
 NOT_YET = 'check under construction in this session (model/theorems not yet committed)'
